@@ -457,7 +457,7 @@ Contract(
     returns=TList(TStr),
     ensures=_fw_post,
     properties=["C18"],
-    fuel=6,
+    fuel=4,
     note="exactly the worlds of the ranking that satisfy the formula, each once",
 )
 
@@ -499,7 +499,7 @@ Contract(
     modifies=["self.ranks"],
     loops={0: LoopSpec("{... for w in worlds}", _cc_inv)},
     properties=["C18"],
-    fuel=7,
+    fuel=5,
     note="the conditionalised ranking has exactly the worlds satisfying the formula, each with its rank",
 )
 
@@ -536,7 +536,7 @@ Contract(
     ensures=_ce_post,
     loops={0: LoopSpec("{... for w in worlds}", _ce_inv)},
     properties=["C18"],
-    fuel=7,
+    fuel=5,
     note="the stored ranks (None where not yet computed) of exactly the worlds satisfying the formula",
 )
 
@@ -679,7 +679,7 @@ Contract(
     },
     loops={0: LoopSpec("for world in self.ranks.keys()", _marg_inv)},
     properties=["C18"],
-    fuel=7,
+    fuel=4,
     note="every projected world that has a ranked extension gets the least rank of its ranked extensions (attained and a lower "
     "bound); no other key; the new signature is the subsequence of the atoms not marginalised away (ghost output: kept positions)",
 )
@@ -753,7 +753,7 @@ Contract(
     + [L.MAll(r.t, LStr.len(c.field(c.self, "signature").val.t)) == L.MAll(r.t, LStr.len(c.field(c.self, "signature").val.t))],
     axioms=[WOFN_MAP],
     properties=["C16", "C18"],
-    fuel=6,
+    fuel=4,
     note="for a well-formed bitstring: one literal per atom of the signature, in order, positive exactly where the bit is not 0; "
     "jointly they denote WofN(bitvec, signature) (lemma WofN.map)",
 )
@@ -796,6 +796,6 @@ Contract(
     modifies=["self.ranks"],
     loops={0: LoopSpec("{... for w in self.ranks.keys()}", _car_inv)},
     properties=["C16", "C18"],
-    fuel=7,
+    fuel=4,
     note="every world of the ranking, in order, with its rank (rank_world of the concrete class)",
 )
